@@ -195,7 +195,7 @@ def hammer_records(jp, rng, n_threads, iterations, light=False):
     return recs
 
 
-def preempt_records(jp, rng, runs_per_scenario):
+def preempt_records(jp, rng, runs_per_scenario, only_shared_prefix=None):
     """Two (or three) threads under the line-granularity scheduler of harness/sched.py: only one runs at a time and the
     token changes hands at chosen 'line' events INSIDE the package - also where CPython itself never switches (between two
     consecutive stores).  Scenarios: one shared compiled query evaluated by every thread on a document of its own; one
@@ -232,6 +232,9 @@ def preempt_records(jp, rng, runs_per_scenario):
         "$[?match(@.s, $.p)]": [{"p": "a.", "x": {"s": "ab"}, "y": {"s": "cb"}}, {"p": "c.", "x": {"s": "ab"}, "y": {"s": "cb"}}],
         "$[?@[?@ > $.n]]": [{"n": 1, "x": [1, 2], "y": [1]}, {"n": 0, "x": [0, 1], "y": [0]}],
     }
+    if only_shared_prefix is not None:
+        # (C07 borrows the index / slice scenarios)
+        scenarios = [sc for sc in scenarios if sc[0] == "shared" and isinstance(sc[1], str) and sc[1].startswith(only_shared_prefix)]
     recs, seen = [], set()
     stuck = 0
     n_sched = 0
